@@ -97,15 +97,41 @@ func VPH_allCommands() {
 				noReplace = true
 			}
 		}
-		vp_Assert(noReplace, what+": replacement objects are disabled (--no-replace-objects)")
+		// commands that read objects or references must see the real ones; `git config` and
+		// `rev-parse --git-path` do not depend on replacement objects or grafts
+		sub, readsObjects := "", false
+		for i := 1; i < len(c.Args); i++ {
+			a := c.Args[i]
+			if a == "-c" || a == "-C" {
+				i++
+				continue
+			}
+			if len(a) > 0 && a[0] != '-' {
+				sub = a
+				for _, b := range c.Args[i+1:] {
+					if b == "--verify" {
+						readsObjects = true
+					}
+				}
+				break
+			}
+		}
+		if sub == "rev-list" || sub == "cat-file" || sub == "for-each-ref" || sub == "log" || sub == "show" {
+			readsObjects = true
+		}
+		if readsObjects {
+			vp_Assert(noReplace, what+": replacement objects are disabled (--no-replace-objects)")
+		}
 		envList := c.Env
 		if envList == nil {
 			envList = env // a nil Env means "inherit"
 		}
 		v, ok := effective(envList, "GIT_DIR")
 		vp_Assert(ok && v == "/the/repo/.git", what+": GIT_DIR is the repository")
-		v, ok = effective(envList, "GIT_GRAFT_FILE")
-		vp_Assert(ok && v == os.DevNull, what+": grafts are disabled")
+		if readsObjects {
+			v, ok = effective(envList, "GIT_GRAFT_FILE")
+			vp_Assert(ok && v == os.DevNull, what+": grafts are disabled")
+		}
 	}
 	vp_Reach("end")
 }
